@@ -48,6 +48,36 @@ def handle (args : List String) : String :=
         if ones.all fun g => g.all fun rs => rs.length == 1 then
           return tableStr (ones.map fun g => g.map fun rs => rs.headD 0)
         else return "not-permutation-matrices"
+  | ["leftregfull", kind, n] => Id.run do
+      -- every entry of the (N,N,N) array: blocks `g` separated by `|`, rows by `;`
+      let some n := n.toNat? | return "bad-op"
+      match tableFor kind n with
+      | none => return "bad-op"
+      | some (.error e) => return e
+      | some (.ok T) =>
+        let N := T.length
+        return "|".intercalate ((List.range N).map fun g => ";".intercalate ((List.range N).map fun r =>
+          String.join ((List.range N).map fun c => toString (leftRegEntry T g r c))))
+  | ["totient", n] => Id.run do
+      let some n := n.toNat? | return "bad-op"
+      return toString (eulerTotient n)
+  | ["dummypart", len, bits] => Id.run do
+      -- `bits`: the predicate as a row-major `len × (len+1)` 0/1 table, `p s e = bits[s*(len+1)+e]`
+      let some len := len.toNat? | return "bad-op"
+      let b := bits.toList
+      if bits ≠ "-" && b.length ≠ len * (len + 1) then return "bad-op"
+      let p := fun s e => b.getD (s * (len + 1) + e) '0' == '1'
+      return ";".intercalate ((dummyPartition len p).map fun (s, e) => s!"{s}:{e}")
+  | ["dedup", dims, mats] => Id.run do
+      -- `dims`: block dimensions in discovery order; `mats`: for every dimension with more than one block (ascending), `d=rows` with rows `/`-separated bit strings, entries `+`-separated
+      let some dims := parseShape? dims | return "bad-op"
+      let tbl : List (Nat × List (List Bool)) := if mats = "-" then [] else
+        (mats.splitOn "+").filterMap fun item =>
+          match item.splitOn "=" with
+          | [d, rows] => d.toNat?.map fun d => (d, (rows.splitOn "/").map fun r => r.toList.map (· == '1'))
+          | _ => none
+      let E := fun d => ((tbl.find? fun x => x.1 == d).map (·.2)).getD []
+      return ";".intercalate ((dedupAll dims E).map fun (d, i) => s!"{d}:{i}")
   | ["numirrep", n] => Id.run do
       let some n := n.toNat? | return "bad-op"
       if n < 1 then return "error:assert"
